@@ -117,7 +117,7 @@ Definition callee : closure := mkCl (XProto [] [] [] 0 0 0 2 [] 0) [] 0%nat.
 Definition s_tc : vstate :=
   mkVS (mkReg [Some (VFun 0%nat); Some (VFun 0%nat)] 2)
        [mkFrame (FnLua 0%nat) 1 0 1 0 0 (-1) 0; mkFrame (FnGo BPcall) 0 0 0 0 0 (-1) 0]
-       [] [] [callee] [] [] [] None 0%nat [mkTh (mkReg [] 0) [] [] None false false true] 0%nat.
+       [] [] [callee] [] [] [] None 0%nat [mkTh (mkReg [] 0) [] [] None false false true 0] 0%nat.
 
 Example tailcall_runs :
   exists b s', tailcall_lua (mkFrame (FnLua 0%nat) 1 0 1 0 0 (-1) 0) (FnLua 0%nat) (VFun 0%nat) false 0 1 s_tc = VRet b s'
@@ -154,7 +154,7 @@ Proof. vm_compute. repeat split; reflexivity. Qed.
 
 (* ---------- coroutines ---------- *)
 (* local co = coroutine.wrap(function(a) local b = coroutine.yield(a + 1); return a + b end); emit(co(1), co(10)) *)
-Example coroutine_state : get_thread s_tc 0 = mkTh (vreg s_tc) (vstack s_tc) [] None false false true.
+Example coroutine_state : get_thread s_tc 0 = mkTh (vreg s_tc) (vstack s_tc) [] None false false true 0.
 Proof. reflexivity. Qed.
 
 (* PCall's recovery with base = 2 on the state with three open upvalues (registers 1, 2, 3) *)
